@@ -940,6 +940,11 @@ def run_history(W: int, npre: int, kinds: list[str], oracle: str, xs: list[int],
 
 
 def run_entry(npre: int, xs: list, av: list) -> bool:
+    # the harness body runs natively; only the ladders inside rt.P() are traced
+    return rt.native(_run_entry, npre, xs, av)
+
+
+def _run_entry(npre: int, xs: list, av: list) -> bool:
     S = rt.SHARD
     assert npre == S['npre']
     calls = []
